@@ -145,7 +145,7 @@ fn gen_ordering_text(rng: &mut Rng, names: &[String]) -> String {
             ns.insert(rng.usize(ns.len() + 1), "extra'".into());
         }
     }
-    let sep = rng.pick_str(&["\n", " ", ", ", " ; ", "\r\n", " or ", " \"a comment\" ", " 7 ", " ) ", "\t"]);
+    let sep = rng.pick_str(&["\n", " ", ", ", " ; ", "\r\n", " or ", " \"a comment\" ", " 7 ", " ) ", "\t", ",", ";", "\"c\"", " \"an old order:\na b c d e f\nhello_world x1\" ", "\n\"\nb a\n\"\n"]);
     ns.join(sep) + rng.pick_str(&["", "\n", " ;"])
 }
 
